@@ -28,7 +28,7 @@ REACH = [("yamlpath/common/keywordsearches.py", "has_child,_has_concrete_child",
          ("yamlpath/common/keywordsearches.py", "parent", "parent"),
          ("yamlpath/common/keywordsearches.py", "distinct,unique,_track_seen_value", "distinct/unique")]
 SIZES = {"quick": 400000, "thorough": 4000000}
-REQUIRED_COUNTERS = ["minmax_checked", "unique_distinct_checked", "has_child_checked", "parent_checked", "name_checked", "chain_checked", "wildcard_parent_checked", "collector_parent_name_checked"]
+REQUIRED_COUNTERS = ["minmax_checked", "unique_distinct_checked", "has_child_checked", "parent_checked", "name_checked", "chain_checked", "wildcard_parent_checked", "collector_parent_name_checked", "parent_then_name_checked", "nested_collector_keyword_checked"]
 
 WORDS = ["apple", "bob", "cat", "dog", "emu", "fig"]
 
@@ -125,6 +125,29 @@ def check_scalar_list(ctx, rng):
             ctx.counters["minmax_checked"] = ctx.counters.get("minmax_checked", 0) + 1
             judge(ctx, "%s%s/list-of-%s" % ("!" if inv else "", kw, kind), case, run(data, path), seq,
                   others if inv else members)
+    if wrap == "key" and len(vals) >= 4 and all(v is not None for v in vals):
+        # keywords applied to what other keywords collected: (( k minus its maxima ) minus the minima of the rest), then
+        # unique / distinct of what is left - members arrive wrapped more than once
+        rest = [v for v in vals if v != max(vals)]
+        rest2 = [v for v in rest if rest and v != min(rest)]
+        c2 = Counter(repr(v) for v in rest2)
+        for kw2, want_vals in (("unique", [v for v in rest2 if c2[repr(v)] == 1]),
+                               ("distinct", list(dict((repr(v), v) for v in rest2).values()))):
+            q = "((k[!max()])[!min()])[%s()]" % kw2
+            ctx.evaluations += 1
+            ctx.counters["nested_collector_keyword_checked"] = ctx.counters.get("nested_collector_keyword_checked", 0) + 1
+            got = run(data, q)
+            if got[0] == "CRASH":
+                ctx.count("crash_handed_to_C15")
+                continue
+            gv = []
+            if got[0] == "OK":
+                for r in got[1]:
+                    u = NodeCoords.unwrap_node_coords(r)
+                    gv.extend(u if isinstance(u, list) else [u])
+            if got[0] != "OK" and want_vals or sorted(str(yp.scalar_plain(x)[1]) for x in gv) != sorted(str(v) for v in want_vals):
+                ctx.violation("%s-over-collected-members/list-of-%s" % (kw2, kind), {"case": {"doc": doc, "query": q},
+                              "summary": "got %r ; definition selects %r" % (gv if got[0] == "OK" else got[1], want_vals)})
     cnt = Counter(repr(v) for v in vals)
     uniq = [i for i, v in enumerate(vals) if cnt[repr(v)] == 1]
     dup = [i for i, v in enumerate(vals) if cnt[repr(v)] > 1]
@@ -279,6 +302,8 @@ def check_parent_name(ctx, rng):
             for k, v in node.items():
                 if isinstance(k, str) and k.isalnum() and not k.isdigit():
                     stack.append((v, chain + [(node, k)], path + "/" + k))
+                elif isinstance(k, int) and not isinstance(k, bool) and k >= 0 and str(k) not in node:
+                    stack.append((v, chain + [(node, k)], path + "/" + str(k)))        # integer keys, addressed by their text
         elif isinstance(node, list) and not yp.is_set(node):
             for i, e in enumerate(node):
                 stack.append((e, chain + [(node, i)], path + "/[%d]" % i))
@@ -339,6 +364,22 @@ def check_parent_name(ctx, rng):
                 if got[0] != "OK" or len(got[1]) != nchild or any(r.node is not want_node for r in got[1]):
                     ctx.violation("wildcard-then-parent/wrong-ancestor", {"case": case, "summary": "%d children, %d steps: got %r" % (
                         nchild, steps, got[1] if got[0] != "OK" else [(repr(r.node)[:40], str(r.path)) for r in got[1]])})
+        # name() of an ancestor reached by climbing: the key or index under which THAT node is held (of its own type)
+        if d >= 2:
+            n_up = rng.randrange(1, d)
+            q = "%s[parent(%d)][name()]" % (path, n_up)
+            ctx.evaluations += 1
+            ctx.counters["parent_then_name_checked"] = ctx.counters.get("parent_then_name_checked", 0) + 1
+            got = run(data, q)
+            want = chain[d - n_up - 1][1]
+            if got[0] == "CRASH":
+                ctx.count("crash_handed_to_C15")
+            else:
+                names = [NodeCoords.unwrap_node_coords(r) for r in got[1]] if got[0] == "OK" else None
+                if names is None or len(names) != 1 or names[0] != want or type(names[0]) is not type(want) and not (
+                        isinstance(want, str) and isinstance(names[0], str)):
+                    ctx.violation("parent-then-name/wrong", {"case": {"doc": text, "query": q}, "summary": "expected %r got %r" % (
+                        want, names if names is not None else got[1])})
         # name()
         q = "%s[name()]" % path
         ctx.evaluations += 1
